@@ -386,6 +386,28 @@ def check_counts(prop, tier):
         del traces[:]
         meta.clear()
 
+    # the witness input of every listed finding and of every repaired defect of this property is counted again on every run:
+    # a listed finding prints its KNOWN-FINDING line, a repaired defect must stay repaired
+    nwit = 0
+    for e in vlib.load_known():
+        w = e.get('witness')
+        if not w or e.get('property') != prop:
+            continue
+        lp = tuple(w['lowprec']) if w.get('lowprec') else None
+        T = drive.run_count(w['blt'], dict(w['options']), lowprec=lp, iters=(prop == 'C08'), want_ballots=(prop in ('C02', 'C06', 'C01')))
+        R.cov['evaluations'] += 1
+        Nt = drive.to_native(T) if T['outcome'] not in ('reject', 'budget') else None
+        if Nt is None:
+            R.violation('%s: the witness input of %s (%s) can no longer be counted: %s %s' % (prop, e['id'], e['kind'], T['outcome'], T['exc']),
+                        dict(blt=w['blt'], options=w['options'], lowprec=w.get('lowprec')))
+            continue
+        tid += 1
+        nwit += 1
+        Nt['id'] = tid
+        Nt['fam'] = drive.fam(T['rule'])
+        traces.append(Nt)
+        meta[tid] = (w['blt'], dict(w['options']), lp, T)
+    R.cov['witness_inputs_of_listed_findings_and_repairs'] = nwit
     for i in range(nprof):
         shape = pick_shape(rng, MIX[prop])
         pr = make_profile(rng, shape, prop)
